@@ -183,7 +183,7 @@ PROPS = {
         "level": "exploration",
         "needs_plain_binary": True,
         "stages": [{"name": "server", "kind": "python", "module": "server_check", "cases": {"quick": 32, "thorough": 300}}],
-        "rule": "case = one HTTP request sent over a raw socket to `ruler serve` running on a ruler directory produced by a random real-file-system history; classes: every cached hash (200 + exact bytes + SHA-256 of the body re-encodes to the name), absent valid hashes (404), every recorded (rule, sources) pair decoded from the history files by the independent bincode reader (200 + hashes in target order, each the hash of a content seen at that target), unknown pairs (404), ~70 malformed/hostile request targets per directory (404, or 400 for byte strings that are not a valid request target; never a body equal to a file outside cache/history; a 200 only when the target names a cached hash), liveness probe; distinct by (directory, class, index); non-trivial when the directory has at least one cache entry and one history entry",
+        "rule": "case = one HTTP request sent over a raw socket to `ruler serve` running on a ruler directory produced by a random real-file-system history; classes: every cached hash (200 + exact bytes + SHA-256 of the body re-encodes to the name), absent valid hashes (404), cache entries that are directories (a directory that sat at a target path and was displaced into the cache: 404), every recorded (rule, sources) pair decoded from the history files by the independent bincode reader (200 + hashes in target order, each the hash of a content seen at that target), unknown pairs (404), ~70 malformed/hostile request targets per directory (404, or 400 for byte strings that are not a valid request target; never a body equal to a file outside cache/history; a 200 only when the target names a cached hash), liveness probe; distinct by (directory, class, index); non-trivial when the directory has at least one cache entry and one history entry",
         "floor": {"quick": 200, "thorough": 2000},
         "assumptions": ["only GET is judged", "the HTTP layer may answer 400 to byte strings that are not a valid request target (raw NUL, space, non-ASCII)", "a trailing '/' or a query after a cached hash addresses the same resource"],
     },
